@@ -244,6 +244,9 @@ type genRec struct {
 	others                            [][2]interface{}
 }
 
+// gbLongTokens: set by the recorders whose property covers text no writer can wrap (C03: Parse(Build(x)) = x)
+var gbLongTokens bool
+
 func wordsN(rng *rand.Rand, n int, extra string) []string {
 	alpha := "abcdefghijklmnopqrstuvwxyzABCDEFGHIJKLMNOPQRSTUVWXYZ0123456789" + extra
 	var ws []string
@@ -257,6 +260,16 @@ func wordsN(rng *rand.Rand, n int, extra string) []string {
 		}
 		if b[len(b)-1] == '/' { // no line other than a record terminator may end in "//"
 			b[len(b)-1] = 'y'
+		}
+		if gbLongTokens && rng.Intn(30) == 0 { // a blank-free token wider than a line (a URL, a run of identifiers)
+			b = make([]byte, 60+rng.Intn(120))
+			for j := range b {
+				b[j] = "abcdefghijklmnopqrstuvwxyz0123456789:/._-%?&=~"[rng.Intn(46)]
+			}
+			copy(b, "https://")
+			if b[len(b)-1] == '/' {
+				b[len(b)-1] = 'y'
+			}
 		}
 		if rng.Intn(12) == 0 { // a word that happens to be a keyword of the format
 			b = []byte([]string{"FEATURES", "ORIGIN", "SOURCE", "REFERENCE", "DEFINITION", "ACCESSION", "VERSION", "LOCUS", "KEYWORDS", "COMMENT", "ORGANISM", "AUTHORS", "TITLE", "JOURNAL"}[rng.Intn(14)])
@@ -382,7 +395,7 @@ func genGbRecordN(rng *rand.Rand, fixedN, maxSeq, maxFeats int) (lines []string,
 	txt := func(ws []string) string { return strings.Join(ws, " ") }
 	def := wordsN(rng, 1+rng.Intn(30), ",.;:()-%&#@!?*+[]{}|~^$<>")
 	acc, ver, kws := wordsN(rng, 1+rng.Intn(2), ""), wordsN(rng, 1+rng.Intn(2), ".:"), wordsN(rng, 1+rng.Intn(5), ";.")
-	if rng.Intn(3) == 0 { // the classic NCBI VERSION line: two blanks between the version and the GI number (a short
+	if rng.Intn(3) == 0 && len(ver[0]) < 40 { // the classic NCBI VERSION line: two blanks between the version and the GI number (a short
 		// line that no writer wraps: runs of blanks at a wrap point cannot be represented)
 		ver = []string{ver[0] + "  GI:" + fmt.Sprint(1000+rng.Intn(9000000))}
 	}
